@@ -107,7 +107,13 @@ impl SyncOp {
             ) if uuid1 == uuid2 && property1 == property2 => {
                 // if the value is the same, there's no conflict
                 if value1 == value2 {
-                    (None, None)
+                    // no conflict, but keep the later of the two so that its timestamp still
+                    // takes part in resolving conflicts with other replicas
+                    if timestamp1 < timestamp2 {
+                        (None, Some(operation2))
+                    } else {
+                        (None, None)
+                    }
                 } else if timestamp1 < timestamp2 {
                     // prefer the later modification
                     (None, Some(operation2))
